@@ -92,6 +92,14 @@ def build_model(sc, therm=None, temperature_entry="setter"):
         if shape != "sphere":
             m.setPrecipitateShape(shape, phase=nm, ratio=p.get("ar", 1))
         m.setNucleationSite(p.get("site", "bulk"), phase=nm)
+        if p.get("elastic"):
+            from kawin.precipitation.parameters.ElasticFactors import StrainEnergy
+            el = p["elastic"]
+            se = StrainEnergy()
+            se.setEigenstrain(list(el["eig"]))
+            se.setModuli(G=el["G"], nu=el["nu"])
+            se.setShape("ellipsoid")
+            m.setStrainEnergy(se, phase=nm, calculateAspectRatio=True)
         if p.get("strain"):
             from kawin.precipitation.parameters.ElasticFactors import StrainEnergy
             se = StrainEnergy()
